@@ -10,7 +10,12 @@ for p in sorted(glob.glob(os.path.join(root, "seeded", "*", "meta.json"))):
         if c.get("caught"):
             v = (c.get("first_violations") or [""])[0]
             oracle = v.split(":")[0].strip() if v else ""
-            checks.append("**%s %s** caught (%s)" % (prop, c.get("tier", "quick"), oracle))
+            extra = ""
+            if c.get("seed") not in (None, "1"):
+                extra = ", VERIF_SEED=%s" % c.get("seed")
+            if c.get("not_caught_with"):
+                extra += "; missed by " + ", ".join(c["not_caught_with"])
+            checks.append("**%s %s** caught (%s%s)" % (prop, c.get("tier", "quick"), oracle, extra))
         else:
             checks.append("%s %s: not caught (exit %s)" % (prop, c.get("tier", "quick"), c.get("exit")))
     rows.append("| `%s` | %s | %s | %s |" % (m["id"], m["breaks_property"], m["summary"].replace("|", "/"), "; ".join(checks) or "not run"))
